@@ -6,6 +6,14 @@ _NOTE = ("Bounded: holds for all values within the bounds recorded in the eviden
 _TECH = "symbolic execution of the real Python code on z3-backed proxy values (BV64/Float64/Real), branch decisions and obligations decided by z3, counterexamples replayed concretely"
 
 CLAIMS = {
+    "C04": {
+        "text": "Bounded symbolic model checking of every public control call of both generations on API objects built by the real handshake: enum arguments enumerated by the solver, temperatures on the 0.05 degC grid as IEEE doubles (j/20 for symbolic j in [-200,1200]), damper, durations, clock times, AC/zone numbers, limits and current mode symbolic; the single frame written is read with the reference command reader (vendor documents): addressing 0x80/0x90 from 0xB0, type, sub-header, check bytes over the right span, intended AC/zone, requested attribute = requested value (set-point within half a resolution step after clamping, in exact integers), every other attribute keep, padding zero.",
+        "note": _NOTE, "technique": _TECH, "design_ref": "DESIGN.md section 6 C04",
+    },
+    "C11": {
+        "text": "Bounded symbolic model checking of the refusal/shape side of every public control call: the ability bitmap relevant to the call fully symbolic (all 32 mode / 128-256 fan bitmaps), turbo support, sensor presence, damper -5..105, temperature grid, limits, current mode and last reported timers symbolic; z3 shows ValueError is raised exactly for unsupported requests and nothing is written then, every accepted call writes exactly one frame, AC set-points are rounded to the resolution and clamped into the current [min,max], and the other quick timer is re-sent exactly as last reported.",
+        "note": _NOTE, "technique": _TECH, "design_ref": "DESIGN.md section 6 C11",
+    },
     "C03": {
         "text": "Bounded symbolic model checking of the real send path into the real receive path for all 36 message/request classes: every field symbolic within its documented domain (ints, flags, lazy enum members, floats on the raw grid as IEEE doubles, UTF-8 strings as validated free bytes, whole-minute durations, packet id), repeat counts 0..2 (quick) with all records free; z3 shows on every path that the delivered header and message equal what was sent, nothing is left over, and header length = size() = bytes produced, 0xC0 sub-header lengths, AT5 outer length (both copies), prefix and checksum span agree.",
         "note": _NOTE + " The checksum *value* is compared with the repo's calculate() over the reference span; that calculate() is CRC-16/MODBUS is C06.", "technique": _TECH, "design_ref": "DESIGN.md section 6 C03",
